@@ -503,10 +503,15 @@ def canon_cell(v):
     return ["other", repr(v)]
 
 
-def run_arff(lines, dense):
+def run_arff(lines, dense, src=False):
     from coba.pipes.readers import ArffReader
     try:
-        rows = list(ArffReader().filter(list(lines)))
+        if src:      # the public wrapper of coba/environments/supervised.py
+            from coba.environments.supervised import ArffSource
+            from coba.pipes import ListSource
+            rows = list(ArffSource(ListSource(list(lines))).read())
+        else:
+            rows = list(ArffReader().filter(list(lines)))
         out = []
         for r in rows:
             if dense:
@@ -522,11 +527,16 @@ def run_arff(lines, dense):
         return {"err": errname(e), "msg": str(e)[:120]}
 
 
-def run_csv(lines, has_header, delimiter):
+def run_csv(lines, has_header, delimiter, src=False):
     from coba.pipes.readers import CsvReader
     try:
         dialect = {} if delimiter == "," else {"delimiter": delimiter}
-        rows = list(CsvReader(has_header=has_header, **dialect).filter(list(lines)))
+        if src:
+            from coba.environments.supervised import CsvSource
+            from coba.pipes import ListSource
+            rows = list(CsvSource(ListSource(list(lines)), has_header, **dialect).read())
+        else:
+            rows = list(CsvReader(has_header=has_header, **dialect).filter(list(lines)))
         hdr = None
         if has_header and rows:
             hdr = [k for k, _ in sorted(dict(rows[0].headers).items(), key=lambda kv: kv[1])]
@@ -535,10 +545,15 @@ def run_csv(lines, has_header, delimiter):
         return {"err": errname(e)}
 
 
-def run_svm(lines, manik):
+def run_svm(lines, manik, src=False):
     from coba.pipes.readers import LibsvmReader, ManikReader
     try:
-        rows = list((ManikReader() if manik else LibsvmReader()).filter(list(lines)))
+        if src:
+            from coba.environments.supervised import LibSvmSource, ManikSource
+            from coba.pipes import ListSource
+            rows = list((ManikSource if manik else LibSvmSource)(ListSource(list(lines))).read())
+        else:
+            rows = list((ManikReader() if manik else LibsvmReader()).filter(list(lines)))
         return {"ok": [[{int(k): float(v) for k, v in r[0].items()}, [str(l) for l in r[1]]] for r in rows]}
     except Exception as e:
         return {"err": errname(e)}
@@ -1047,16 +1062,16 @@ class C12(Property):
         rows, header = gen_csv_table(rng)
         sp = {"sseed": rng.randint(0, 10 ** 6), "quoting": rng.choice(["minimal", "minimal", "all", "some", "nonnumeric"]),
               "delimiter": rng.choice([",", ",", "\t", ";"]), "blanks": rng.chance(0.3), "quote_edges": rng.chance(0.3)}
-        return {"kind": "csv", "rows": rows, "header": header, "sp": sp, "via": gen_via(rng)}
+        return {"kind": "csv", "rows": rows, "header": header, "sp": sp, "via": gen_via(rng), "src": rng.chance(0.25)}
 
     def gen_svm(self, rng, tier):
         return {"kind": "svm", "rows": gen_svm_rows(rng), "manik": rng.chance(0.4),
-                "sp": {"sseed": rng.randint(0, 10 ** 6), "blanks": rng.chance(0.3), "trail_ws": rng.chance(0.3)}, "via": gen_via(rng)}
+                "sp": {"sseed": rng.randint(0, 10 ** 6), "blanks": rng.chance(0.3), "trail_ws": rng.chance(0.3)}, "via": gen_via(rng), "src": rng.chance(0.25)}
 
     def gen_arff(self, rng, tier):
         dense = rng.chance(0.65)
         t = gen_table(rng, tier)
-        return {"kind": "arff", "table": t, "dense": dense, "sp": gen_arff_sp(rng), "via": gen_via(rng) if rng.chance(0.3) else {"mode": "lines"}}
+        return {"kind": "arff", "table": t, "dense": dense, "sp": gen_arff_sp(rng), "via": gen_via(rng) if rng.chance(0.3) else {"mode": "lines"}, "src": rng.chance(0.2)}
 
     def generate(self, rng, tier):
         k = rng.wchoice([(22, "chunk"), (8, "delim"), (10, "disk"), (16, "csv"), (9, "svm"), (35, "arff")])
@@ -1274,7 +1289,7 @@ class C12(Property):
         got_lines, exp_lines = deliver(lines, case["via"])
         if got_lines != {"ok": exp_lines}:
             return self._delivery_failure(case, lines, got_lines, exp_lines, tags)
-        impl = run_csv(got_lines["ok"], has_header, delim)
+        impl = run_csv(got_lines["ok"], has_header, delim, case.get("src", False))
         expected = {"ok": {"header": case["header"] if case["rows"] else None, "rows": case["rows"]}}
         if has_header:
             tags.append("header")
@@ -1356,7 +1371,7 @@ class C12(Property):
         got_lines, exp_lines = deliver(lines, case["via"])
         if got_lines != {"ok": exp_lines}:
             return self._delivery_failure(case, lines, got_lines, exp_lines, tags)
-        impl = run_svm(got_lines["ok"], case["manik"])
+        impl = run_svm(got_lines["ok"], case["manik"], case.get("src", False))
         expected = {"ok": expect_svm(case["rows"])}
         if impl != expected:
             sym = "raises-" + impl["err"] if "err" in impl else ("row-count" if len(impl["ok"]) != len(case["rows"]) else "rows-differ")
@@ -1383,6 +1398,8 @@ class C12(Property):
         dense = case["dense"]
         sp = case["sp"]
         tags = ["kind:arff-" + ("dense" if dense else "sparse"), "via:" + case["via"]["mode"], "style:" + sp.get("style", "weka")]
+        if case.get("src"):
+            tags.append("through:supervised.ArffSource")
         tags += ["sp:" + k for k in sp if k not in ("sseed", "style")]
         if len(sp) <= 2:
             tags.append("canonical-spelling")
@@ -1392,7 +1409,7 @@ class C12(Property):
         got_lines, exp_lines = deliver(lines, case["via"])
         if got_lines != {"ok": exp_lines}:
             return self._delivery_failure(case, lines, got_lines, exp_lines, tags)
-        impl = run_arff(got_lines["ok"], dense)
+        impl = run_arff(got_lines["ok"], dense, case.get("src", False))
         res = arff_compare(case, impl)
         fails = []
         if res is not None:
